@@ -150,12 +150,13 @@ def write_world(d: Path, w: Dict[str, Any]) -> Path:
             for r in rows:
                 f.write(",".join("" if x is None else str(x) for x in r) + "\n")
 
+    seats = any("seats" in v for v in w["vehicles"])       # the optional available_seats column (small cars, parties of two)
     csv(
         d / "vehicles" / "vehicles.csv",
-        ["vehicle_id", "lat", "lon", "mechatronics_id", "initial_soc", "schedule_id", "home_base_id"],
+        ["vehicle_id", "lat", "lon", "mechatronics_id", "initial_soc", "schedule_id", "home_base_id"] + (["available_seats"] if seats else []),
         [
             (v["id"], f"{v['lat']:.7f}", f"{v['lon']:.7f}", v.get("mech", "leaf_50"), v.get("soc", 0.8),
-             v.get("schedule") or "", v.get("home_base") or "")
+             v.get("schedule") or "", v.get("home_base") or "") + ((v.get("seats", 4),) if seats else ())
             for v in w["vehicles"]
         ],
     )
